@@ -38,3 +38,24 @@ package types
 //@     invariant iter > 0 ==> max == maxPrio(vals.Validators, iter) && min == minPrio(vals.Validators, iter)
 //@     invariant iter > 0 ==> -4611686018427387904 < min && min <= max && max < 4611686018427387904
 //@     invariant iter == 0 ==> max == -9223372036854775808 && min == 9223372036854775807
+
+// ---------------------------------------------------------------- C11: canonical sign bytes
+
+//@ func CreateCanonicalVote(chainID string, vote *kproto.Vote) (r kproto.CanonicalVote)
+//@   for C11 C02
+//@   requires vote != nil
+//@   ensures r.ChainID == chainID
+//@   ensures r.Type == vote.Type
+//@   ensures r.Height == vote.Height
+//@   ensures r.Round == vote.Round
+//@   ensures r.Timestamp == vote.Timestamp
+
+//@ func CreateCanonicalProposal(chainID string, proposal *kproto.Proposal) (r kproto.CanonicalProposal)
+//@   for C11
+//@   requires proposal != nil
+//@   ensures r.ChainID == chainID
+//@   ensures r.Type == kproto.ProposalType
+//@   ensures r.Height == proposal.Height
+//@   ensures r.Round == proposal.Round
+//@   ensures r.POLRound == proposal.PolRound
+//@   ensures r.Timestamp == proposal.Timestamp
